@@ -116,6 +116,10 @@ var awkwardCatalogue = []awkward{
 	{"stack", func() any { return stackage.And().Push("in") }},
 	{"alias", func() any { return MyStack(stackage.Or().Push(1)) }},
 	{"condition", func() any { return stackage.Cond("k", stackage.Eq, "v") }},
+	{"empty-keyword-condition", func() any { return stackage.Cond("", stackage.Eq, "v") }},
+	{"init-condition-with-operator-only", func() any { var c stackage.Condition; c.Init(); c.SetOperator(stackage.Ne); return c }},
+	{"condition-with-stack-expression", func() any { return stackage.Cond("k", stackage.Ge, stackage.Or().Push("a", "b")) }},
+	{"condition-alias-invalid", func() any { var c stackage.Condition; c.Init(); return MyCond(c) }},
 	{"operatorless-condition", func() any { var c stackage.Condition; c.Init(); c.SetKeyword("k"); c.SetExpression("v"); return c }},
 	{"slice-of-nil-ptr", func() any { return []*int{nil} }},
 	{"slice-with-nil-ptr", func() any { x := 1; return []*int{&x, nil} }},
